@@ -141,6 +141,31 @@ def shard_enum(shard, nshards, tier, seed, scratch):
                             seen_clauses.add(key)
                             failures.append({'leg': 'enum-newline', 'clause': v.clause, 'detail': v.detail, 'case': {'kind': 'line-direct', 'line': line, 'delim': d, 'policy': policy}})
         stats.bump('enumerated-with-line-breaks-delim-' + repr(d))
+    # particular "other" characters at the first / last position of the line (BOM, no-break and exotic spaces, control characters, the
+    # other quote, backslash, comment sign): for the splitter they are ordinary characters
+    SPECIAL_OTHERS = ['\ufeff', '\xa0', '\t', '\x0b', '\x0c', '\u2003', '\u3000', '\x00', '\x1f', '\x85', '\\', "'", '#', '\xef\xbb\xbf', '\U0001d11e']
+    for d in (',', '::', ' '):
+        alphabet = ['"', d, ' ', 'x'] if d != ' ' else ['"', ' ', 'x']
+        for n in range(0, 5):
+            for tup in itertools.product(alphabet, repeat=n):
+                counter += 1
+                if counter % nshards != shard:
+                    continue
+                core = ''.join(tup)
+                for sc in SPECIAL_OTHERS:
+                    for line in (sc + core, core + sc, sc + core + sc):
+                        for policy in ('quoted', 'quoted_rfc'):
+                            stats.evaluations += 1
+                            if '"' in core:
+                                stats.nontrivial_counted += 1
+                            try:
+                                check_line(line, d, policy, via_iterator=not (line.startswith('\ufeff') or line.startswith('\xef\xbb\xbf')))   # the reader (not the splitter) strips a leading BOM
+                            except Violation as v:
+                                key = (policy, 'special', v.clause)
+                                if key not in seen_clauses:
+                                    seen_clauses.add(key)
+                                    failures.append({'leg': 'enum-special-chars', 'clause': v.clause, 'detail': v.detail, 'case': {'kind': 'line-direct', 'line': line, 'delim': d, 'policy': policy}})
+        stats.bump('enumerated-special-first/last-char-delim-' + repr(d))
     # keep the shortest failing line per clause (enumeration is by increasing length per delimiter)
     for f in failures:
         f.pop('_len', None)
